@@ -125,10 +125,13 @@ impl TimerQueue {
     }
 
     pub(super) fn next(&self) -> Option<SimTime> {
+        // Slots whose entries were all dropped or reset stay in the queue
+        // until `bump` passes them, so the earliest pending deadline is that
+        // of the first slot that still has an entry, not that of the front slot.
         self.pending
             .borrow()
-            .front()
-            .filter(|slot| !slot.entrys.borrow().is_empty())
+            .iter()
+            .find(|slot| !slot.entrys.borrow().is_empty())
             .map(|s| s.time)
     }
 
